@@ -653,7 +653,7 @@ pub fn gen_program_tfc(rng: &mut Rng) -> Program {
         }
     }
     for _ in 0..rng.range(1, 4) {
-        let below = *rng.pick(&gates);
+        let below = if rng.chance(1, 2) { *rng.pick(&gates) } else { *rng.pick(&tops) };
         let e = match rng.below(4) {
             0 => Expr::Add(b(Expr::Read(below)), b(Expr::Const(vec![1]))),
             1 => Expr::Add(b(Expr::Read(below)), b(Expr::Read(*rng.pick(&tops)))),
@@ -664,6 +664,13 @@ pub fn gen_program_tfc(rng: &mut Rng) -> Program {
         };
         nodes.push(Node { kind: Kind::Nm, expr: e });
         tops.push(nodes.len() as u32 - 1);
+    }
+    // usually one more plain level on top of the last chain node: two plain
+    // levels above a gate are what seeded change C01-1 needs
+    if rng.chance(2, 3) {
+        let last = *tops.last().unwrap();
+        let e = if rng.chance(1, 2) { Expr::Read(last) } else { Expr::Add(b(Expr::Read(last)), b(Expr::Read(*rng.pick(&xs)))) };
+        nodes.push(Node { kind: Kind::Nm, expr: e });
     }
     Program { nodes }
 }
